@@ -124,6 +124,12 @@ theorem FlF_step {cf q p n pc pid} (h : FlF cf q p n pc pid) :
   exact ⟨rfl, FlF_false _ _ h⟩
 
 
+theorem FlF_cases {cf q p n pc pid} (h : FlF cf q p n pc pid) :
+    (cf.fails n = true ∧ q = false ∧ FlF cf q p (n + 1) pc pid) ∨ (cf.fails n = false ∧ FlF cf q p (n + 1) pc pid) := by
+  cases hf : cf.fails n
+  · exact .inr ⟨rfl, (FlF_step h).1 hf⟩
+  · exact .inl ⟨rfl, (FlF_step h).2 hf⟩
+
 theorem FlF_pc {cf q p n pc pid} (pc' : Option Nat) (h : FlF cf q p n pc pid) (hpc : pc'.isSome = true → pc.isSome = true) :
     FlF cf q p n pc' pid :=
   ⟨fun hq => ⟨(h.1 hq).1, fun h' => (h.1 hq).2 (hpc h')⟩, h.2⟩
@@ -181,5 +187,176 @@ theorem spec_poolDrop (cf : Cfg) (q p : Bool) (con : Nat) (s : St) (hG : G cf q 
     simp_all [G, PoolFr]
   · have := hF'.1 (by simpa using hf)
     simp_all [G, PoolFr]
+
+
+@[simp] theorem FlF_false_iff {cf p n pc pid} : FlF cf false p n pc pid ↔ (p = true → pid = true) := by
+  simp [FlF]
+
+theorem FlF_true_elim {cf p n pc pid} (h : FlF cf true p n pc pid) :
+    (∀ i, n ≤ i → cf.fails i = false) ∧ (pc.isSome = true → pid = true) ∧ (p = true → pid = true) :=
+  ⟨(h.1 rfl).1, (h.1 rfl).2, h.2⟩
+
+theorem FlF_true_intro {cf p n n' pc pid} (hq : ∀ i, n ≤ i → cf.fails i = false) (hn : n ≤ n')
+    (h1 : pc.isSome = true → pid = true) (h2 : p = true → pid = true) : FlF cf true p n' pc pid :=
+  ⟨fun _ => ⟨fun i hi => hq i (by omega), h1⟩, h2⟩
+
+theorem spec_poolRelease (cf : Cfg) (q p : Bool) (con : Nat) (s : St) (hG : G cf q p s) (hc : s.poolCon = some con) :
+    wp (poolRelease cf con)
+      (fun _ s' => G cf q p s' ∧ s'.poolCon = some con ∧ s'.dirty = false ∧ PoolFr s s')
+      (fun _ s' => (G cf q p s' ∧ s'.poolCon = none ∧ s'.dirty = false ∧ PoolFr s s') ∧ q = false) s := by
+  obtain ⟨hA, hW, hF⟩ := hG
+  have hF' := FlF_step hF
+  simp only [poolRelease, conRollback, wp_bind, wp_getS, wp_modS, wp_assertM, wp_dbcall, wp_tryCatch, wp_raise, hc]
+  simp only [decide_true, if_true]
+  split <;> rename_i hf
+  · obtain ⟨hq, hF1⟩ := hF'.2 hf
+    subst hq
+    refine wp_mono (spec_poolDrop cf false p con _ ?_ ?_) ?_ ?_
+    · simp_all [G]
+    · simp [hc]
+    · intro _ s' h; exact ⟨⟨h.1, h.2.1, h.2.2.1, h.2.2.2⟩, rfl⟩
+    · intro _ s' h; exact ⟨⟨h.1.1, h.1.2.1, h.1.2.2.1, h.1.2.2.2⟩, rfl⟩
+  · have := hF'.1 (by simpa using hf)
+    simp_all [G, PoolFr]
+
+theorem spec_poolConnect (cf : Cfg) (q p : Bool) (s : St) (hG : G cf q p s) :
+    wp (poolConnect cf)
+      (fun r s' => G cf q p s' ∧ s'.poolCon = some r.1 ∧ (s'.dirty = true → s.dirty = true) ∧ PoolFr s s')
+      (fun _ s' => (G cf q p s' ∧ (s'.dirty = true → s.dirty = true) ∧ PoolFr s s') ∧ q = false) s := by
+  obtain ⟨hA, hW, hF⟩ := hG
+  cases hpc : s.poolCon with
+  | some k =>
+    cases hpid : s.poolPid with
+    | false =>
+      have hq : q = false := by
+        cases q with
+        | false => rfl
+        | true => have := (FlF_true_elim hF).2.1; simp_all
+      subst hq
+      simp_all [poolConnect, G, PoolFr]
+    | true => simp_all [poolConnect, G, PoolFr]
+  | none =>
+    rw [hpc] at hA hF
+    have hA' := AccF_new hA
+    cases q with
+    | true =>
+      obtain ⟨hq, -, hp⟩ := FlF_true_elim hF
+      have h0 := hq s.n (Nat.le_refl _)
+      have h1 := hq (s.n + 1) (by omega)
+      have h2 := hq (s.n + 1 + 1) (by omega)
+      have hF' : FlF cf true p (s.n + 1 + 1 + 1) (some s.nextCon) true := FlF_true_intro hq (by omega) (by simp) (by simp)
+      simp_all [poolConnect, poolConnectNew, conExecute, G, PoolFr]
+    | false =>
+      simp only [poolConnect, poolConnectNew, conExecute, wp_bind, wp_getS, wp_modS, wp_dbcall, wp_raise, wp_pure, hpc]
+      simp only [Option.isSome_none, Bool.false_and, Bool.false_eq_true, if_false, wp_bind, wp_getS, wp_modS, wp_dbcall, wp_raise, wp_pure, wp_ite]
+      repeat' split
+      all_goals simp_all [G, PoolFr]
+
+
+@[simp] theorem wp_releaseLock (Q : Unit → St → Prop) (E) (s) :
+    wp releaseLock Q E s = if s.lock then Q () { s with lock := false, trace := Ev.release :: s.trace }
+                           else E .unlocked { s with bad := true } := by
+  unfold wp releaseLock; cases h : s.lock <;> simp
+
+@[simp] theorem wp_acquireLock (Q : Unit → St → Prop) (E) (s) :
+    wp acquireLock Q E s =
+      if s.pre then E .deadlock { s with bad := true }
+      else if s.lock then E .deadlock { s with pre := true, trace := Ev.preAcquire :: s.trace, bad := true }
+      else Q () { s with lock := true, pre := false, trace := Ev.preRelease :: Ev.acquire :: Ev.preAcquire :: s.trace } := by
+  unfold wp acquireLock; cases h : s.pre <;> cases h2 : s.lock <;> simp [h2]
+
+theorem WBF_release {tr pr b} (h : WBF tr pr true b) : WBF (Ev.release :: tr) pr false b := by
+  simp_all [WBF, lockState]
+
+theorem WBF_acquire {tr pr b} (h : WBF tr pr false b) :
+    WBF (Ev.preRelease :: Ev.acquire :: Ev.preAcquire :: tr) false true b := by
+  simp_all [WBF, lockState]
+
+/-- everything of the cache object except `in_transaction` -/
+abbrev CFr (c c' : Cache) : Prop :=
+  c'.conn = c.conn ∧ c'.immediate = c.immediate ∧ c'.savedFk = c.savedFk ∧ c'.pending = c.pending
+
+abbrev Fr3 (s s' : St) : Prop := s'.poolCon = s.poolCon ∧ s'.hasCache = s.hasCache
+
+/-- unfold the invariants to facts about fields and let `simp_all` finish -/
+macro "inv_simp" : tactic => `(tactic| simp_all [G, WBF, lockState, CFr, Fr3, PoolFr])
+
+/-- `SQLiteProvider.commit` / `.rollback`: whatever happens, the lock is free and `in_transaction` is False afterwards -/
+theorem spec_provCommit (cf : Cfg) (q p : Bool) (con : Nat) (s : St) (hG : G cf q p s) (hl : s.lock = s.cache.inTx) :
+    wp (provCommit cf con)
+      (fun _ s' => G cf q p s' ∧ s'.lock = false ∧ s'.cache.inTx = false ∧ CFr s.cache s'.cache ∧ s'.dirty = false ∧ Fr3 s s')
+      (fun _ s' => (G cf q p s' ∧ s'.lock = false ∧ s'.cache.inTx = false ∧ CFr s.cache s'.cache ∧
+                    (s'.dirty = true → s.dirty = true) ∧ Fr3 s s') ∧ q = false) s := by
+  obtain ⟨hA, hW, hF⟩ := hG
+  simp only [provCommit, withLockRelease, baseCommit, conCommit, wp_bind, wp_getS, wp_modS, wp_modC, wp_dbcall,
+    wp_tryFinally, wp_wrap, wp_ite, wp_releaseLock, wp_pure]
+  cases hin : s.cache.inTx <;> rw [hin] at hl <;> rcases FlF_cases hF with ⟨hf, hq, hF1⟩ | ⟨hf, hF1⟩ <;> inv_simp
+
+theorem spec_provRollback (cf : Cfg) (q p : Bool) (con : Nat) (s : St) (hG : G cf q p s) (hl : s.lock = s.cache.inTx) :
+    wp (provRollback cf con)
+      (fun _ s' => G cf q p s' ∧ s'.lock = false ∧ s'.cache.inTx = false ∧ CFr s.cache s'.cache ∧ s'.dirty = false ∧ Fr3 s s')
+      (fun _ s' => (G cf q p s' ∧ s'.lock = false ∧ s'.cache.inTx = false ∧ CFr s.cache s'.cache ∧
+                    (s'.dirty = true → s.dirty = true) ∧ Fr3 s s') ∧ q = false) s := by
+  obtain ⟨hA, hW, hF⟩ := hG
+  simp only [provRollback, withLockRelease, baseRollback, conRollback, wp_bind, wp_getS, wp_modS, wp_modC, wp_dbcall,
+    wp_tryFinally, wp_wrap, wp_ite, wp_releaseLock, wp_pure]
+  cases hin : s.cache.inTx <;> rw [hin] at hl <;> rcases FlF_cases hF with ⟨hf, hq, hF1⟩ | ⟨hf, hF1⟩ <;> inv_simp
+
+
+theorem spec_provDrop (cf : Cfg) (q p : Bool) (con : Nat) (s : St) (hG : G cf q p s) (hl : s.lock = s.cache.inTx)
+    (hc : s.poolCon = some con) :
+    wp (provDrop cf con)
+      (fun _ s' => G cf q p s' ∧ s'.lock = false ∧ s'.cache.inTx = false ∧ CFr s.cache s'.cache ∧ s'.dirty = false ∧
+                   s'.poolCon = none ∧ s'.hasCache = s.hasCache)
+      (fun _ s' => (G cf q p s' ∧ s'.lock = false ∧ s'.cache.inTx = false ∧ CFr s.cache s'.cache ∧ s'.dirty = false ∧
+                    s'.poolCon = none ∧ s'.hasCache = s.hasCache) ∧ q = false) s := by
+  simp only [provDrop, withLockRelease, baseDrop, wp_bind, wp_getS, wp_tryFinally, wp_wrap, wp_modC, wp_ite,
+    wp_releaseLock, wp_pure]
+  refine wp_mono (spec_poolDrop cf q p con s hG hc) ?_ ?_
+  · intro _ s' h
+    obtain ⟨⟨hA', hW', hF'⟩, hpc, hd, hl', hc', hh⟩ := h
+    cases hin : s.cache.inTx <;> rw [hin] at hl <;> inv_simp
+  · intro _ s' h
+    obtain ⟨⟨⟨hA', hW', hF'⟩, hpc, hd, hl', hc', hh⟩, hq⟩ := h
+    cases hin : s.cache.inTx <;> rw [hin] at hl <;> inv_simp
+
+
+/-- facts available when no call fails from index `n` on -/
+theorem quiet_facts {cf p n pc pid} (h : FlF cf true p n pc pid) :
+    (cf.fails n = false ∧ cf.fails (n + 1) = false ∧ cf.fails (n + 1 + 1) = false ∧ cf.fails (n + 1 + 1 + 1) = false ∧
+     cf.fails (n + 1 + 1 + 1 + 1) = false) ∧
+    (FlF cf true p (n + 1) pc pid ∧ FlF cf true p (n + 1 + 1) pc pid ∧ FlF cf true p (n + 1 + 1 + 1) pc pid ∧
+     FlF cf true p (n + 1 + 1 + 1 + 1) pc pid ∧ FlF cf true p (n + 1 + 1 + 1 + 1 + 1) pc pid) := by
+  obtain ⟨hq, h1, h2⟩ := FlF_true_elim h
+  exact ⟨⟨hq _ (by omega), hq _ (by omega), hq _ (by omega), hq _ (by omega), hq _ (by omega)⟩,
+    FlF_true_intro hq (by omega) h1 h2, FlF_true_intro hq (by omega) h1 h2, FlF_true_intro hq (by omega) h1 h2,
+    FlF_true_intro hq (by omega) h1 h2, FlF_true_intro hq (by omega) h1 h2⟩
+
+/-- `SQLiteProvider.set_transaction_mode`: ends holding the lock exactly when it has set `in_transaction` -/
+theorem spec_setTransactionMode (cf : Cfg) (q p : Bool) (con : Nat) (s : St) (hG : G cf q p s)
+    (hin : s.cache.inTx = false) (hl : s.lock = false) (hddl : cf.ddl = true → s.cache.immediate = true) :
+    wp (setTransactionMode cf con)
+      (fun _ s' => G cf q p s' ∧ s'.cache.inTx = s.cache.immediate ∧ s'.lock = s.cache.immediate ∧
+                   s'.cache.conn = s.cache.conn ∧ s'.cache.immediate = s.cache.immediate ∧ s'.cache.pending = s.cache.pending ∧
+                   Fr3 s s' ∧ (s'.dirty = true → s.dirty = true ∨ s.cache.immediate = true))
+      (fun _ s' => (G cf q p s' ∧ s'.cache.inTx = false ∧ s'.lock = false ∧
+                    s'.cache.conn = s.cache.conn ∧ s'.cache.immediate = s.cache.immediate ∧ s'.cache.pending = s.cache.pending ∧
+                    Fr3 s s') ∧ q = false) s := by
+  obtain ⟨hA, hW, hF⟩ := hG
+  obtain ⟨hb, hpre, hls⟩ := hW
+  rw [hl] at hls
+  cases q with
+  | true =>
+    obtain ⟨⟨h0, h1, h2, h3, h4⟩, hF1, hF2, hF3, hF4, hF5⟩ := quiet_facts hF
+    cases himm : s.cache.immediate <;> cases hd : cf.ddl <;> cases hfk : s.fk <;>
+      simp_all [setTransactionMode, conCursor, conExecute, G, WBF, lockState, CFr, Fr3]
+  | false =>
+    cases himm : s.cache.immediate <;> cases hd : cf.ddl <;> cases hfk : s.fk <;>
+      simp only [setTransactionMode, conCursor, conExecute, wp_bind, wp_getS, wp_modS, wp_modC, wp_dbcall, wp_tryFinally,
+        wp_wrap, wp_ite, wp_releaseLock, wp_acquireLock, wp_assertM, wp_pure, hin, himm, hd, hfk, hl, hpre] <;>
+      simp (config := { decide := true }) only [if_true, if_false, Bool.not_false, Bool.not_true, wp_bind, wp_getS, wp_modS, wp_modC, wp_dbcall,
+        wp_tryFinally, wp_wrap, wp_ite, wp_releaseLock, wp_acquireLock, wp_assertM, wp_pure, Bool.false_eq_true, Bool.and_true,
+        Bool.and_false, Bool.true_and, Bool.false_and] <;>
+      (repeat' split) <;> simp_all [G, WBF, lockState, CFr, Fr3]
 
 end PonyVerif.Model.ConnLock
